@@ -10,7 +10,8 @@ EXTENDS PearlIO, Json, IOUtils
 Rec == ndJsonDeserialize(IOEnv.TRACE)
 
 VARIABLES l,       \* next event to consume
-          crashed  \* the crash image of the last `crash` event: [kind, cuts]
+          crashed, \* the crash image of the last `crash` event: [kind, cuts]
+          spoiled  \* blob files the driver made unreadable between two sessions (quarantined or ignored from then on)
 
 E == Rec[l]
 
@@ -19,7 +20,7 @@ IOInit ==
   /\ api = "" /\ post = "" /\ postId = NoBlob /\ strict = FALSE
 
 NoCrash == [kind |-> "", cuts |-> <<>>]
-TraceInit == IOInit /\ l = 1 /\ crashed = NoCrash
+TraceInit == IOInit /\ l = 1 /\ crashed = NoCrash /\ spoiled = {}
 
 Quiet == post' = "" /\ postId' = NoBlob
 
@@ -30,9 +31,17 @@ IsWriteEv(e) == e \in {"create", "reserve", "write", "write_done", "write_at", "
 \* C07: queries perform no writes (judged in strict executions, where nothing runs in the
 \* background while the driver queries)
 QueryClean == ~(strict /\ api = "query" /\ IsWriteEv(E.ev))
+\* C07: an unreadable blob file is set aside (moved to the corrupted directory unchanged, or ignored where it
+\* lies): nothing is ever written into it, in particular no new blob takes it over together with its id
+SpoiledUntouched == ~(E.ev \in {"reserve", "write", "write_at", "truncate"} /\ E.f \in spoiled)
+SpoiledNext ==
+  spoiled' = IF E.ev = "reset" THEN {}
+             ELSE IF E.ev = "damage" /\ E.k = "blob" THEN spoiled \cup {E.f}
+             ELSE IF E.ev = "rename" /\ E.f \in spoiled THEN (spoiled \ {E.f}) \cup {E.f2}
+             ELSE spoiled
 
 ConsumeIO ==
-  /\ QueryClean
+  /\ QueryClean /\ SpoiledUntouched
   /\ CASE E.ev = "reset" ->
             /\ file' = [x \in {} |-> 0] /\ everBlob' = {} /\ active' = NoBlob
             /\ limit' = E.a /\ strict' = (E.ok = 1) /\ api' = "" /\ Quiet
@@ -81,9 +90,9 @@ Consume ==
        /\ UNCHANGED <<iovars, crashed>>
   ELSE ConsumeIO /\ crashed' = IF E.ev = "reset" THEN NoCrash ELSE crashed
 
-TraceNext == l <= Len(Rec) /\ l' = l + 1 /\ Consume
+TraceNext == l <= Len(Rec) /\ l' = l + 1 /\ Consume /\ SpoiledNext
 
-TraceSpec == TraceInit /\ [][TraceNext]_<<iovars, l, crashed>>
+TraceSpec == TraceInit /\ [][TraceNext]_<<iovars, l, crashed, spoiled>>
 
 \* the whole trace was consumed; otherwise report the first event that no action explains
 TraceAccepted ==
